@@ -5,6 +5,7 @@ import RLV.Model.Disp
 import RLV.Model.Esc
 import RLV.Model.Hist
 import RLV.Model.Keys
+import RLV.Model.MLoop
 import RLV.Model.Kill
 import RLV.Model.Loop
 import RLV.Model.Menu
@@ -227,6 +228,23 @@ def step (line : String) : String :=
         pure (pfx, l2, c2) : Core.G _) with
     | .ok (pfx, l2, c2) => s!"ok {showNats pfx} {showNats l2} {c2}"
     | .error e => e.show
+  | ["loop", flags, regs, mtbl, ltbl, chunks] =>
+    -- the whole main loop on probe commands and bind macros: flags = emacs, nonInc, isearch;
+    -- table entries seq:action:macro, the action of a macro given as its runes
+    let parseTbl (t : String) : List (List Nat × Bind) := (parseList t ";").filterMap fun ent =>
+      match ent.splitOn ":" with
+      | [rs, act, m] => some (parseNats rs,
+          if m == "1" then ⟨String.ofList ((parseNats act).map Char.ofNat), true⟩ else ⟨if act == "_" then "" else act, false⟩)
+      | _ => none
+    let fl := flags.toList
+    let em := fl.getD 0 '1' == '1'
+    let e : Eng := { mainTbl := norm (parseTbl mtbl), isEmacs := em, viInsert := !em, registered := parseList regs ",",
+                     nonInc := fl.getD 1 '0' == '1' }
+    let C : MLoop.Cmds := { run := fun b cmd s => if cmd then { s with log := s.log ++ [(b.action, s.eng.keys.matched)] } else s }
+    let s0 : MLoop.LS := { eng := e, ltbl := norm (parseTbl ltbl), isearch := fl.getD 2 '0' == '1' }
+    let (s, ok) := MLoop.session C 400 ((parseList chunks ",").map parseNats) s0
+    let evs := s.log.map fun (a, ks) => s!"{a}/{showNats ks}"
+    " ".intercalate (evs ++ [if ok then s!"END/{s.eng.keys.buf.length + s.eng.keys.mkeys.length}" else "FUEL"])
   | ["local", emacs, isearch, regs, tbl, chunks] =>
     let table : List (List Nat × Bind) := (parseList tbl ";").filterMap fun ent =>
       match ent.splitOn ":" with
